@@ -19,6 +19,7 @@ partial def loop (h : IO.FS.Stream) (s : St) (n d : Nat) : IO (Nat × Nat) := do
       let s' := match op with
         | ["init"] => init
         | ["new", a] => step s (.new a.toNat!)
+        | ["newnod", a] => step s (.newNoDestroy a.toNat!)
         | ["alloc", a, b] => step s (.alloc a.toNat! b.toNat!)
         | ["allocdefault", b] => step s (.allocDefault b.toNat!)
         | ["free", b] => step s (.free b.toNat!)
